@@ -23,7 +23,7 @@ class TranslateError(Exception):
 
 
 LEAN_KEYWORDS = {"end", "from", "at", "in", "do", "then", "else", "fun", "let", "have", "show", "open", "by", "if"}
-TOKEN = re.compile(r"\s*(?:(\d[\d_]*(?:\.\d+)?(?:[iuf]\d+|usize|isize)?|0x[0-9a-fA-F_]+(?:[iu]\d+|usize)?)|('[a-z_]\w*)(?!')|([A-Za-z_]\w*!?)|(::|->|=>|==|!=|<=|>=|&&|\|\||<<|>>|\.\.=|\.\.|[-+*/%&|^!<>=.,;:(){}\[\]#?]))")
+TOKEN = re.compile(r"\s*(?:(\d[\d_]*(?:\.\d+)?(?:[iuf]\d+|usize|isize)?|0x[0-9a-fA-F_]+(?:[iu]\d+|usize)?)|('[a-z_]\w*)(?!')|([A-Za-z_]\w*!?)|(::|->|=>|==|!=|<=|>=|&&|\|\||\.\.=|\.\.|[-+*/%&|^!<>=.,;:(){}\[\]#?]))")
 
 
 def strip_comments(src):
@@ -271,6 +271,8 @@ class Parser:
                     self.eat()
             self.eat("}")
             return ("match", scrut, arms)
+        if self.at("move") and self.peek(1)[1] == "|":
+            self.eat()
         if self.at("|"):
             self.eat()
             params = []
@@ -500,6 +502,17 @@ class Emit:
                 if not m:
                     raise TranslateError("from_raw_parts_mut over %s" % rust_text(args[0]))
                 return "(from_raw_parts_mut %s %s)" % (self.term(("path", [m.group(1)])), self.atom(args[1]))
+            if ft == "array::from_fn" and len(args) == 1 and args[0][0] == "closure" and args[0][1] == ["_"]:
+                # `array::from_fn(move |_| e)`: N calls of the closure in index order (std's documented order)
+                sub = Emit(self.names)
+                sub.locals, sub.ind, sub.n = set(self.locals), self.ind + "  ", self.n
+                t = sub.term(args[0][2])
+                self.n = sub.n
+                v = self.fresh()
+                self.out("let %s ← forEachSlot N (do" % v)
+                self.lines += sub.lines
+                self.out("  pure %s)" % sub.atom_t(t))
+                return v
             if ft == "mem::size_of_val" and len(args) == 1:
                 return "%s.size_of_val" % self.atom(args[0])
             if ft == "mem::transmute" and len(args) == 1:
@@ -685,9 +698,11 @@ def impl_spans(text):
     """[(header, start, end)] of the `impl` / `trait` items of a comment-stripped text"""
     out = []
     for m in re.finditer(r"\b(impl|pub\s+trait|trait)\b", text):
-        i = text.find("{", m.end())
-        semi = text.find(";", m.end())
-        if i < 0 or (0 <= semi < i) or "}" in text[m.start():i] or '"' in text[m.start():i]:
+        i, depth = m.end(), 0
+        while i < len(text) and not (depth == 0 and text[i] in "{;"):        # a `;` inside `[T; N]` is not the end of an item
+            depth += (text[i] in "[(") - (text[i] in "])")
+            i += 1
+        if i >= len(text) or text[i] == ";" or "}" in text[m.start():i] or '"' in text[m.start():i]:
             continue
         d, j = 0, i
         while j < len(text):
@@ -835,6 +850,8 @@ for fn, header, nth, lean, binders, ret, params in [
 FUNCS_STANDARD = [
     {"file": "src/distr/standard.rs", "fn": "sample", "macro": "impl_nzint", "lean": "Standard.nonzero_sample", "binders": RB + " {T NZ : Type} (next : m T) (NZ_new : T → Option NZ) (fuel : Nat)",
      "ret": "m (Option NZ)", "names": {"rand": ("self", "R"), "self.next": ("fn", "next"), "num::NZ::new": ("pfn", "NZ_new")}, "subst": [("$name", "NZ")]},
+    {"file": "src/distr/standard.rs", "fn": "sample", "header": "Distribution<[T; N]> for StandardUniform", "lean": "Standard.array_sample", "binders": RB + " {T : Type} (StandardUniform : Dist m σ T) (N : Nat)", "ret": "m (List T)",
+     "names": {"StandardUniform": ("val", "StandardUniform"), "rand": ("val", "R"), "<StandardUniform as Distribution < T >>::sample": ("fn", "Dist.sample")}},
     {"file": "src/distr/standard.rs", "fn": "sample", "header": "for num::Wrapping<T>", "lean": "Standard.wrapping_sample", "binders": RB + " {T : Type} (StandardUniform : Dist m σ T)", "ret": "m (Wrapping T)",
      "names": {"StandardUniform": ("val", "StandardUniform"), "rand": ("val", "R"), "num::Wrapping": ("pfn", "Wrapping.mk")}},
 ]
